@@ -225,6 +225,8 @@ func runSpecial(g *hc.Gen, scratch string, thorough bool, cs *childStats, sigs m
 		{"listagg_within_plain", "SELECT grp, LISTAGG(DISTINCT txt, ',') WITHIN GROUP (ORDER BY txt), COUNT(DISTINCT val) FROM big GROUP BY grp"},
 		{"agg_expr_derived", "SELECT g, SUM(val * 2), MEDIAN(val + id), MAX(UPPER(txt)) FROM " + derived + " GROUP BY g HAVING COUNT(*) > 0 ORDER BY g"},
 		{"listagg_analytic", "SELECT id, LISTAGG(txt, '') OVER (PARTITION BY g ORDER BY val + 1) FROM " + derived},
+		{"cursor_udf", "DECLARE cur CURSOR FOR SELECT id FROM small; OPEN cur; DECLARE cf FUNCTION (@a) AS BEGIN DECLARE @x; FETCH cur INTO @x; RETURN @x; END; " +
+			"SELECT id, cf(id), CURSOR cur COUNT, CURSOR cur IS OPEN FROM big WHERE (cf(id) > 0 OR id > 0) AND (CURSOR cur IS IN RANGE OR id > 0); CLOSE cur; DISPOSE CURSOR cur"},
 		{"prepared_literal", "PREPARE p1 FROM 'SELECT id, val + ? FROM big WHERE grp < ?'; EXECUTE p1 USING 50, 4; EXECUTE p1 USING 1.5, 9"},
 		{"prepared_variable", "DECLARE @pv := 3; PREPARE p2 FROM 'SELECT id, val + ?, txt || ? FROM big WHERE grp < ? ORDER BY val * ?'; EXECUTE p2 USING @pv, @pv || 'x', @pv + 2, @pv - 5; EXECUTE p2 USING @pv + 1, 'lit', (SELECT MAX(grp) FROM small), 2"},
 		{"prepared_named", "DECLARE @pn := 7; PREPARE p3 FROM 'SELECT id, :a + val, :b FROM big WHERE val > :a - 100 AND EXISTS (SELECT 1 FROM small s WHERE s.id = big.id + :c)'; EXECUTE p3 USING @pn * 2 AS a, (SELECT COUNT(*) FROM small) AS b, @pn AS c"},
